@@ -378,6 +378,9 @@ func c05Judge(r *fw.Rec, base string, f c05Fault) {
 			What: fmt.Sprintf("naming fault %s at %s of %s, which LLVM rejects, is accepted by the parser and a module is returned", f.kind, f.site, base), Observed: out})
 	case perr != nil && m != nil:
 		r.Violate(fw.Violation{Key: "fault-error-with-module/" + f.kind, Input: f.text, What: "the parser returns both an error and a module"})
+	case perr == nil && m == nil:
+		r.Violate(fw.Violation{Key: "fault-neither-error-nor-module/" + f.kind, Input: f.text,
+			What: fmt.Sprintf("naming fault %s at %s of %s: the parser returns no module and no error", f.kind, f.site, base)})
 	default:
 		r.Tally("faults_reported_as_error", f.kind)
 		r.Nontrivial(base + "|" + f.kind + "|" + f.site)
@@ -465,6 +468,16 @@ func c05Handwritten(r *fw.Rec) {
 		"duplicate/comdat":                                    "$c = comdat any\n$c = comdat largest\n@g = global i32 0, comdat($c)\n",
 		"duplicate/metadata-id":                               "!0 = !{}\n!0 = !{!\"x\"}\n!nm = !{!0}\n",
 		"duplicate/ifunc-and-function":                        "@r = global i32 0\ndefine void ()* @res() {\n  ret void ()* null\n}\n@f = ifunc void (), void ()* ()* @res\ndefine void @f() {\n  ret void\n}\n",
+		// named types inside attributes
+		"undefined/type-in-preallocated-function-attribute": "declare void @f() preallocated(%missing)\n",
+		"undefined/type-in-preallocated-attribute-group":    "declare void @f() #0\nattributes #0 = { preallocated(%missing) }\n",
+		"undefined/type-in-byval-parameter-attribute":       "declare void @f(i8* byval(%missing))\n",
+		"undefined/type-in-sret-parameter-attribute":        "declare void @f(i8* sret(%missing))\n",
+		"undefined/type-in-byref-parameter-attribute":       "declare void @f(i8* byref(%missing))\n",
+		"undefined/type-in-inalloca-parameter-attribute":    "declare void @f(i8* inalloca(%missing))\n",
+		"undefined/type-in-elementtype-call-attribute":      "declare void @llvm.x(i8*)\ndefine void @f(i8* %p) {\n  call void @llvm.x(i8* elementtype(%missing) %p)\n  ret void\n}\n",
+		"undefined/type-in-byval-call-argument":             "declare void @g(i8*)\ndefine void @f(i8* %p) {\n  call void @g(i8* byval(%missing) %p)\n  ret void\n}\n",
+		"undefined/type-in-preallocated-call-attribute":     "declare void @g()\ndefine void @f() {\n  call void @g() preallocated(%missing)\n  ret void\n}\n",
 		// the empty quoted name: a definition spelled `%""` is unnamed, so nothing is
 		// ever called "" and a reference to it has no definition (LLVM: use of
 		// undefined value '%')
